@@ -166,7 +166,10 @@ func (r *WordRenderer) renderInlineContent(node ast.Node, para *document.Paragra
 			// 处理软换行（单个\n）
 			// goldmark将单个\n解析为多个Text节点，第一个节点的SoftLineBreak为true
 			// 在Markdown中，软换行通常应该被渲染为空格
-			if n.SoftLineBreak() {
+			// 硬换行（行尾两个空格或反斜杠）渲染为段内换行符
+			if n.HardLineBreak() {
+				para.Runs = append(para.Runs, document.Run{Break: &document.Break{}})
+			} else if n.SoftLineBreak() {
 				para.AddFormattedText(" ", nil)
 			}
 
@@ -610,8 +613,10 @@ func (r *WordRenderer) renderTaskItemContent(parent ast.Node, para *document.Par
 			text := string(n.Segment.Value(r.source))
 			para.AddFormattedText(text, nil)
 			
-			// 处理软换行（单个\n）
-			if n.SoftLineBreak() {
+			// 处理硬换行和软换行（单个\n）
+			if n.HardLineBreak() {
+				para.Runs = append(para.Runs, document.Run{Break: &document.Break{}})
+			} else if n.SoftLineBreak() {
 				para.AddFormattedText(" ", nil)
 			}
 		case *ast.Emphasis:
